@@ -506,3 +506,22 @@ func rapidChecksFlag() int {
 	}
 	return 100
 }
+
+// FuzzProp exposes a property to Go's native coverage-guided fuzzer: the
+// fuzzer's bytes become rapid's bit stream (rapid.MakeFuzz), so coverage
+// feedback from the code under test steers the same generator and the same
+// oracle that the rapid part uses. A failing case is also written as a JSON
+// replay file whose path is printed after the marker VERIF-REPLAY.
+func FuzzProp[C any](f *testing.F, p Prop[C]) {
+	rec := NewRecorder(p.ID, "fuzz")
+	f.Add([]byte{})
+	f.Add([]byte{0xff, 0xff, 0xff, 0xff, 0xff, 0xff, 0xff, 0xff, 0x55, 0x55, 0x55, 0x55, 0xaa, 0xaa, 0xaa, 0xaa})
+	f.Add([]byte("\x01\x02\x03\x04\x05\x06\x07\x08\x09\x0a\x0b\x0c\x0d\x0e\x0f\x10\x11\x12\x13\x14\x15\x16\x17\x18\x19\x1a\x1b\x1c\x1d\x1e\x1f\x20"))
+	f.Fuzz(rapid.MakeFuzz(func(rt *rapid.T) {
+		c := p.Gen(rt)
+		if d := handle(p.ID, rec, safely(func() *Disc { return p.Check(c, rec) })); d != nil {
+			path := writeReplay(p.ID, "rapid", c, d)
+			rt.Fatalf("VERIF-REPLAY %s :: %s", path, abbrev(d.Msg, 1200))
+		}
+	}))
+}
